@@ -294,6 +294,8 @@ def canon(v, depth=0):
         return [type(v).__name__, sorted(json.dumps(canon(x, depth + 1)) for x in v)]
     if isinstance(v, dict):
         return ["dict", sorted(json.dumps([canon(k, depth + 1), canon(x, depth + 1)]) for k, x in v.items())]
+    if type(v).__name__ == "VivNS":
+        return ["vivns", sorted(v.children)]
     if isinstance(v, Adv):
         return ["adv", type(v).__name__, v.mode, v.val]
     return ["obj", type(v).__name__]
@@ -327,7 +329,7 @@ def call_once(code, path, spec, tracer=None):
     obs["dunder"] = sorted(set(G.Adv.LOG))
     obs["iters"] = [canon(list(it)) for it in iters]
     obs["state"] = [canon(ns.get("G")), canon(args[3]) if isinstance(args[3], list) else None,
-                    canon(args[4]) if isinstance(args[4], (list, set)) else None]
+                    canon(args[4]) if isinstance(args[4], (list, set)) or type(args[4]).__name__ == "VivNS" else None]
     return obs
 
 
